@@ -388,23 +388,24 @@ type attackSim struct {
 
 	atkStart time.Duration // fake time at which Attack was called
 
-	P           int // pace calls answered without stop
-	paceCall    []time.Duration
-	paceWait    []time.Duration
-	paceStopped bool
-	prevElapsed time.Duration
-	S           int // hits started
-	hits        []*hitRec
-	bySeq       map[int64]int // seq -> hit index (from the transport)
-	C           int
-	seen        map[uint64]resultSnap
-	closed      bool
-	closedStep  int
-	startSlack  time.Duration // upper bound of (vegeta's own start instant - atkStart)
-	haveSlack   bool
-	durTrig     bool
-	durPossible bool
-	simEnd      time.Duration
+	P             int // pace calls answered without stop
+	paceCall      []time.Duration
+	paceWait      []time.Duration
+	paceStopped   bool
+	prevElapsed   time.Duration
+	S             int // hits started
+	hits          []*hitRec
+	bySeq         map[int64]int // seq -> hit index (from the transport)
+	C             int
+	seen          map[uint64]resultSnap
+	consumedOrder []uint64
+	closed        bool
+	closedStep    int
+	startSlack    time.Duration // upper bound of (vegeta's own start instant - atkStart)
+	haveSlack     bool
+	durTrig       bool
+	durPossible   bool
+	simEnd        time.Duration
 
 	trigStep   int // first step at which a non-Stop stop trigger existed (-1 none)
 	anyTrigger bool
